@@ -15,6 +15,7 @@ CAPWORDS = ["Password", "MONKEY", "dRagon", "LoVe", "Abc", "TEST", "passWORD"]
 NONASCII = ["пароль", "λόγος", "señor", "é", "über", "ñandú", "мир", "Привет"]
 DIGS = ["1", "12", "123", "1234", "2019", "1987", "007", "0", "99", "2000", "19", "20191"]
 SYMS = ["!", "!!", "@", "#", "$$", ".", "-", "_", " ", "  ", "?!"]
+CASED_SYMBOLS = ["Ⓐ", "Ⓩ", "Ⅷ", "Ⅻ", "ⓐ", "ⅷ", "★", "②"]     # circled capitals / Roman numerals: not letters, yet str.lower() changes them
 WALKS = ["1qaz", "qwer", "asdf", "zaq1", "1q2w3e", "qwerty", "1qaz2wsx", "asdfgh"]
 CONTEXT = ["<3", ";p", "#1", "*0*", ":)"]
 EMAILS = ["bob@gmail.com", "alice@yahoo.com", "x@y.org"]
@@ -56,7 +57,7 @@ def gen_password(t, flavour):
         elif k <= 6:
             parts.append(t.choice(DIGS))
         elif k == 7:
-            parts.append(t.choice(SYMS))
+            parts.append(t.choice(SYMS) if not (flavour.get("nonascii") and t.chance(1, 4)) else t.choice(CASED_SYMBOLS))
         elif k == 8:
             parts.append(t.choice(WALKS))
         elif k == 9:
@@ -94,7 +95,7 @@ def gen_list(t, flavour=None, min_lines=3, max_lines=40):
     for _ in range(t.between(2, 10)):
         for _try in range(5):
             pw = gen_password(t, flavour)
-            if pw and len(pw) <= 20 and representable(pw, enc):
+            if pw and len(pw) <= (23 if flavour.get("long") else 20) and representable(pw, enc):
                 pool.append(pw)
                 break
     if not pool:
@@ -105,6 +106,11 @@ def gen_list(t, flavour=None, min_lines=3, max_lines=40):
         # make some base words frequent enough for multi-word detection
         w = t.choice(WORDS)
         pws += [w] * t.between(5, 7)
+    if flavour.get("long"):
+        # passwords of exactly the maximum trained length (21), one below and one above
+        for target in t.sample([20, 21, 21, 22], 2):
+            w = "".join(t.choice(WORDS) for _ in range(6))[:target]
+            pws += [w] * t.between(1, 3)
     if flavour.get("multi3") or t.chance(1, 6):
         # a three-word multi-word, its two-word tail and head, and the base words often enough to be split
         ws = t.sample([w for w in WORDS if len(w) >= 4], 3)
